@@ -55,8 +55,17 @@ LongSize == 4
 ShortSize == 2
 HoleSize == LongSize - ShortSize
 RvcRelSize(t) == CASE t \in {"cb_imm11", "cbl_imm11"} -> 4 [] t \in {"bc_imm11", "bc_imm8"} -> 2 [] OTHER -> 0
-\* register the short form links through: c.jal writes x1, c.j writes nothing
-ShortRd(t) == IF t = "cbl_imm11" THEN 1 ELSE 0
+(* The shrink rule.  do_shrink is specific to the relocation type: it rewrites the site to                *)
+(*     cb_imm11  -> c.j    (= jal x0, offset: links nothing)                                             *)
+(*     cbl_imm11 -> c.jal  (= jal x1, offset: links through ra)                                          *)
+(* whatever rd the 32-bit `jal rd, sym` at the site has (CBl / RiscvArch.branch(reg, label) give          *)
+(* cbl_imm11 to every rd, x0 included).  A site may therefore shrink only for the pairs                  *)
+(*     (rd = x0, cb_imm11) and (rd = ra, cbl_imm11);                                                     *)
+(* (x0, cbl_imm11), (ra, cb_imm11) and every other rd under either type must keep the long form.         *)
+ShortInsn(t) == IF t = "cbl_imm11" THEN "c.jal" ELSE "c.j"
+\* register the short form links through (the rd of its expansion, RV32.tla Expand)
+ShortRd(t) == RV!Expand(RV!Ins(ShortInsn(t), 0, 0, 0, 0, 2)).rd
+MayShrink(rd, t) == RelaxableType(t) /\ rd = ShortRd(t)
 
 Pow2(n) == 2 ^ n
 InS(x, bits) == -Pow2(bits - 1) <= x /\ x <= Pow2(bits - 1) - 1     \* rvc_relocations.isinsrange
@@ -82,7 +91,7 @@ SiteIsInput(d, r, n) == /\ HasSec(d.secs, d.rels[r].sec)
 SiteInsn(d, r, n) == RV!Decode(MkT([k \in 1..n |-> InByte(SiteTags(d, r, n)[k])]))
 \* the site holds `jal rd, _` with the rd the short form links through
 RdOK(d, r) == /\ SiteIsInput(d, r, LongSize)
-              /\ LET i == SiteInsn(d, r, LongSize) IN i.mn = "jal" /\ i.rd = ShortRd(d.rels[r].type)
+              /\ LET i == SiteInsn(d, r, LongSize) IN i.mn = "jal" /\ MayShrink(i.rd, d.rels[r].type)
 
 -----------------------------------------------------------------------------
 (* the mechanics: _apply_relaxation_holes *)
@@ -273,8 +282,8 @@ OnlyRelaxable     == JustRelaxed => OnlyRelaxableOf(Before, pre.K)
 \* (Placement, NoOverlap, Inside: Linker.tla)
 \* (informative, not a clause of the property) the phase did what the transcription of ppci does
 AsTranscribed == JustRelaxed =>
-    /\ pre.K = DesignK(Before)
-    /\ KeepAddrs(dst) = DesignAddrs(Before, pre.K)
+    \/ pre.K = DesignK(Before) /\ KeepAddrs(dst) = DesignAddrs(Before, pre.K)      \* ppci as first transcribed
+    \/ pre.K = FixedK(Before) /\ KeepAddrs(dst) = FixedAddrs(Before, pre.K)        \* ppci with the C13 repairs
 
 \* the domain of the specification: relaxable sites are whole input instructions, pairwise disjoint, even
 RelaxDomain(d) ==
